@@ -432,7 +432,8 @@ impl Hist {
 			num_change_outputs: *self.p.pick(&[1u32, 1, 1, 2, 3, 0]),
 			selection_strategy_is_use_all: forced == Some(true) || self.p.coin(),
 			ttl_blocks: if self.p.chance(1, 4) {
-				Some(self.p.range(1, 4))
+				// (one in ten of them beyond the end of the chain)
+				if self.p.chance(1, 10) { Some(u64::MAX) } else { Some(self.p.range(1, 4)) }
 			} else {
 				None
 			},
